@@ -126,10 +126,17 @@ pub fn cells(tier: Tier) -> Vec<CellPlan> {
         EvOp::World(Op::Spawn(1, 1 << TA)),
         EvOp::EmitS(SK::EM, Mode::Broadcast, Some(1)),
         EvOp::EmitC(0, CK::CM, Some(1)),
+        EvOp::EmitCAfterBad(0, CK::CT, None),
+        EvOp::EmitCAfterBad(1, CK::CM, Some(0)),
     ];
     c.env.hold_updates = 1;
     c.rounds = if q { 3 } else { 4 };
     v.push(plan(c, 1, 2.0));
+
+    // One broadcast re-stamped for recipients whose update ticks have different encoded sizes.
+    for off in [124, 126] {
+        v.push(plan(super::c04::ticks_3c("C05", off, q), if q { 0 } else { 1 }, 1.0));
+    }
     v
 }
 
